@@ -2,6 +2,7 @@ package main
 
 import (
 	"fmt"
+	"strings"
 	"go/constant"
 	"go/token"
 	"go/types"
@@ -214,9 +215,11 @@ func (fr *Frame) loopHead(l *Loop, st *State) {
 	}
 	l.wc = &writeConstraint{what: "loop-frame", items: items, nextAt: st.next, loop: l}
 	// 3. havoc
-	fc.havocItems(st, items)
 	nn := fc.sc.Fresh("next", SInt)
 	fc.sc.Assert(Ge(nn, st.next))
+	fc.hvBound = nn
+	fc.havocItems(st, items)
+	fc.hvBound = nil
 	st.next = nn
 	hasCall, hasSync := false, false
 	for b := range l.blocks {
@@ -227,6 +230,9 @@ func (fr *Frame) loopHead(l *Loop, st *State) {
 					key := rangeKey(x.Iter.(*ssa.Range))
 					if g, ok := st.ghosts[key]; ok {
 						st.ghosts[key] = fc.sc.Fresh("seen", g.Sort)
+					}
+					if _, ok := st.ghosts["seencnt:"+key]; ok {
+						st.ghosts["seencnt:"+key] = fc.sc.Fresh("seencnt", SInt)
 					}
 				}
 			case *ssa.Call:
@@ -241,7 +247,7 @@ func (fr *Frame) loopHead(l *Loop, st *State) {
 	}
 	if hasCall {
 		for k, g := range st.ghosts {
-			if len(k) >= 5 && k[:5] == "seen:" {
+			if strings.HasPrefix(k, "seen:") || strings.HasPrefix(k, "seencnt:") {
 				continue
 			}
 			if (k == "held" || k == "rheld") && !hasSync {
@@ -273,6 +279,11 @@ func (fr *Frame) loopHead(l *Loop, st *State) {
 		fc.assume(st, a)
 	}
 	l.entryPhi = entryPhi
+	// vacuity guard: the loop head must be reachable under the assumed invariants
+	if l.spec != nil && len(fr.loopInvariants(l)) > 0 {
+		fc.covers = append(fc.covers, &Obligation{Name: fmt.Sprintf("%s/%s%scover#head", fc.key, fr.path, lname), Kind: "cover", Func: fc.key,
+			NFacts: len(fc.sc.facts), NegGoal: st.reach.S, Script: fc.sc, Pos: pos, Desc: "loop head reachable under the assumed invariants (invariants not contradictory)"})
+	}
 	// 5. variant
 	l.decr0 = nil
 	if l.spec != nil {
